@@ -128,7 +128,8 @@ EXC = {"ValueError": "ValueError", "TypeError": "TypeError", "AttributeError": "
        "NotAllowedValue": "ENotAllowed", "TooManyValues": "ETooMany", "FormatError": "EFormat",
        "MissingRequiredValue": "EMissingValue", "MissingAttribute": "EMissingAttribute", "UnsupportedAlgorithm": "EUnsupportedAlg", "InvalidRequest": "EInvalidRequest",
        "VerificationError": "EVerification", "SchemeError": "EScheme", "NotForMe": "ENotForMe",
-       "IssuerMismatch": "EIssuerMismatch", "EXPError": "EExp", "IATError": "EIat", "MessageException": "EMessage"}
+       "IssuerMismatch": "EIssuerMismatch", "EXPError": "EExp", "IATError": "EIat", "MessageException": "EMessage",
+       "AtHashError": "EAtHash", "CHashError": "ECHash"}
 
 
 def coq_res(outcome, okf):
@@ -205,11 +206,13 @@ def base_kwargs(cls):
 
 
 # ------------------------------------------------------------------ running model cases
-def check_cases(ctx, imports, case_type, checker, modelfn, cases, label, shard=300, max_unmodelled=0.05):
+def check_cases(ctx, imports, case_type, checker, modelfn, cases, label, shard=300, max_unmodelled=0.05, prelude=""):
     """cases: [(case term of type `case_type`, input term for `modelfn`, record)].
     `checker : case_type -> bool` compares model and implementation; `modelfn` recomputes the model's
     answer (a `res _`).  A case where they differ AND the model answers Unmodelled is counted as
-    unmodelled (skipped); any other difference is a model/implementation mismatch."""
+    unmodelled (skipped); any other difference is a model/implementation mismatch.
+    `prelude`: Gallina definitions the case terms refer to by name (a table shared by all cases), written
+    in front of every shard."""
     if not cases:
         return
     shards = [cases[i:i + shard] for i in range(0, len(cases), shard)]
@@ -217,8 +220,8 @@ def check_cases(ctx, imports, case_type, checker, modelfn, cases, label, shard=3
     for sc in shards:
         ctx.shard_seq += 1
         name = "%s_%s_%03d" % (ctx.prop, label, ctx.shard_seq)
-        body = ("Definition cases : list (%s) := [\n%s\n].\nEval vm_compute in (bad_indices (%s) cases).\n"
-                % (case_type, ";\n".join(t for t, _, _ in sc), checker))
+        body = ("%sDefinition cases : list (%s) := [\n%s\n].\nEval vm_compute in (bad_indices (%s) cases).\n"
+                % (prelude, case_type, ";\n".join(t for t, _, _ in sc), checker))
         jobs.append((name, body, sc))
 
     def run(job):
@@ -239,7 +242,7 @@ def check_cases(ctx, imports, case_type, checker, modelfn, cases, label, shard=3
         if not idx:
             continue
         # what does the model say on the differing cases?
-        dbody = "".join("Eval vm_compute in (%s (%s)).\n" % (modelfn, sc[i][1]) for i in idx[:40])
+        dbody = prelude + "".join("Eval vm_compute in (%s (%s)).\n" % (modelfn, sc[i][1]) for i in idx[:40])
         drc, dout, dv = ctx.coq_eval(name + "_diag", imports, dbody)
         answers = dict(zip(idx[:40], dv))
         for i in idx:
